@@ -9,6 +9,10 @@
 (*          content that is not Write w's content for that name)             *)
 (*   crash                 the process died; a fresh Dir will be used        *)
 (*   ret    w, err, versions   Write returned; versions = version dirs left  *)
+(*   fault                 the environment makes a filesystem operation fail *)
+(*          from now on (outside the statement's quantifier: a Write may     *)
+(*          then return an error and left-over directories are not judged;   *)
+(*          everything the statement says about the TARGET stays in force)   *)
 EXTENDS Naturals, Sequences, FiniteSets
 
 Bad(why) == [bad |-> TRUE, why |-> why]
@@ -18,7 +22,7 @@ CReset == [bad |-> FALSE, why |-> "", files |-> <<>>,   \* files[w]: the set of 
            cur |-> 0,          \* the last Write that returned successfully
            inflight |-> 0,     \* the Write in progress (0: none)
            shown |-> 0,        \* the Write the target was last seen to resolve to
-           crashes |-> 0]
+           crashes |-> 0, faults |-> 0]
 
 ToSet(s) == {s[i] : i \in 1..Len(s)}
 
@@ -41,9 +45,10 @@ CObs(c, e) ==
 CCrash(c) == [c EXCEPT !.crashes = c.crashes + 1, !.inflight = 0, !.cur = c.shown]
 
 CRet(c, e) ==
-  IF e.err THEN Bad(IF c.crashes > 0 THEN "Write failed after an earlier crash" ELSE "Write failed")
+  IF e.err THEN IF c.faults > 0 THEN [c EXCEPT !.inflight = 0, !.cur = c.shown]
+                ELSE Bad(IF c.crashes > 0 THEN "Write failed after an earlier crash" ELSE "Write failed")
   ELSE IF c.shown # e.w THEN Bad("Write returned but the target does not show its set")
-  ELSE IF c.crashes = 0 /\ e.versions # 1 THEN Bad("more than the current version directory remains after a crash-free Write")
+  ELSE IF c.crashes = 0 /\ c.faults = 0 /\ e.versions # 1 THEN Bad("more than the current version directory remains after a crash-free Write")
   ELSE [c EXCEPT !.cur = e.w, !.inflight = 0]
 
 CNext(c, e) ==
@@ -52,5 +57,6 @@ CNext(c, e) ==
   ELSE CASE e.ev = "begin" -> CBegin(c, e)
          [] e.ev = "obs"   -> CObs(c, e)
          [] e.ev = "crash" -> CCrash(c)
+         [] e.ev = "fault" -> [c EXCEPT !.faults = c.faults + 1]
          [] e.ev = "ret"   -> CRet(c, e)
 =============================================================================
